@@ -777,6 +777,13 @@ class Gen:
                 self.features.add("soap-headers")
             w.operations.append(op)
         w.share_prefix = share_prefix
+        if len(self.files) >= 2 and _random.Random("inline:" + wuri + str(len(self.files))).random() < self.cfg.get("p_inline_schemas", 0.0):
+            # one WSDL, several inline schemas (one per namespace) and no sibling files; the order of the schemas is arbitrary
+            ss.inline_all = True
+            order = list(range(len(self.files)))
+            _random.Random("inline-order:" + wuri).shuffle(order)
+            ss.inline_order = order
+            self.features.add("several-inline-schemas")
         ss.wsdl = w
         self.features.add("wsdl")
 
